@@ -115,6 +115,7 @@ type Truth struct {
 	CurPriv    []byte   // value the format designates as current (nil when none)
 	CurPub     []byte
 	RingExists bool // v2
+	NoCurrent  bool // v2: the ring exists and its Current is NoKey
 }
 
 func (w *World) TruthOf(s Slot) Truth {
@@ -179,6 +180,7 @@ func (w *World) truthV2(s Slot) Truth {
 	t.RingExists = true
 	seqs, _ := ring.AllKeys() // newest first
 	cur, curErr := ring.CurrentKey()
+	t.NoCurrent = curErr != nil
 	for _, q := range seqs {
 		st, _ := ring.State(q)
 		if st == v2api.KeyDestroyed {
